@@ -29,6 +29,17 @@ mux `openburst`: ['openburst', reads] — Open() on an endpoint that accepts the
 reset or end of stream are already there: the receive loop, first of the greenlets `_OpenImpl` spawned to start,
 meets them before the send loop and the ping helper have run at all (the model: the open, then the burst).
 
+mux `park`: ['park'] — a request handed to the transport while its Open() is pending (`_state == Idle and _open_result`).
+The real AsyncProcessRequest blocks in `_open_result.wait()`, so the harness issues it from a greenlet of its own and
+observes which callers are still blocked (last field of the observation).  The tag the pool hands such a caller is only
+known once it has gone on; it is written into the operation text afterwards (`park <id> <tag>`; a caller that never
+asked for a tag gets a free one, which the model does not use).  The open is pending during the handshake, and while
+the connect is in progress: ['openstart'] is an Open() whose connect blocks (stepnet `next_connect = 'block'`, like a
+real non-blocking connect) and ['connected', 'ok'|'refuse', reads] lets it conclude — accepted, possibly with the
+outcomes of the first reads already there as in `openburst`, or refused.  The blocked callers resume when the open
+result is set, last in that drain: on an Open transport they take their tags and are queued in order, on a transport
+that was shut down each gets the 'Sink not open.' error.
+
 The positions are reached by stepping the event loop one generation of callbacks at a time (`gevent.sleep(0)`
 runs exactly the callbacks that were scheduled when it was called): release the reads, let the receive loop run,
 let the `_ProcessReply` greenlets run.  The timers of the ping loop / ping helper cannot land inside a drain: the
@@ -48,18 +59,20 @@ TRUSTED = ['step-controlled fake socket harness/stepnet.py standing for ScalesSo
            'VarzSocketWrapper (one sendall / recv_into is atomic; a read whose bytes / end of stream / error are '
            'already buffered returns without yielding, like a socket read that finds data)',
            'logging sink stack (subclass of ClientMessageSinkStack) counting every response it is handed',
-           'tags handed out by the tag pool are read from the run and passed to the model (C11 is about them)']
+           'tags handed out by the tag pool are read from the run and passed to the model (C11 is about them)',
+           'a connect in progress is a greenlet blocked in the fake OS socket\'s connect() (stepnet next_connect = '
+           '\'block\'); a request issued while the open is pending runs in a greenlet spawned by the harness']
 ASSUMPTIONS = ['gevent is cooperative: between two blocking calls a transport method is atomic',
-               'mux: Open() is called once, requests are not issued while the open waits for its first Rping, '
-               'no Deadline event on mux requests (C12), tags of in-flight requests are distinct (C11)',
+               'mux: Open() is called once, no Deadline event on mux requests (C12), tags of in-flight requests and the '
+               'tags handed to the callers that were blocked on the open result are distinct (C11)',
                'a deliberate Close() with a serial transaction in flight kills it without a response: nothing claimed',
                'ping intervals: random.randint(30, 40) is replaced by 30 (virtual seconds)',
                'events inside a drain (race): positions are generations of the callback list (gevent runs callbacks '
                'FIFO; gevent.sleep(0) from the harness runs exactly the callbacks scheduled so far); a timer (ping '
                'loop, 5 s ping helper) cannot land inside a drain because the loop runs timers only when no callback is '
                'left, so ping silence / ping due are operations of their own',
-               'callers blocked in AsyncProcessRequest on the open result are not part of this component (the '
-               'resmux component of C09 has them)']
+               'callers blocked on the open result resume last in the drain in which the result is set (gevent '
+               'notifies the waiters of an AsyncResult from a callback scheduled when it is set), oldest first']
 RULE = ('scripts = corpus + seeded random operation lists + exhaustive enumeration of fault position x fault kind x '
         'requests in flight (serial 0-1, mux 0-3) through the third transaction, for the mux transport also with the '
         'read fault (error / EOF, in a header / a body) arriving in one burst right behind 1-2 frames (reply of an '
@@ -68,8 +81,12 @@ RULE = ('scripts = corpus + seeded random operation lists + exhaustive enumerati
         'the _ProcessReply greenlets run, after they ran and before the greenlets they woke — _OpenImpl, the ping '
         'helper — resume; during the opening handshake with the Tping written or not, and with 0-3 requests in '
         'flight), and with the first reads of a connection (frames, reset, end of stream) already there when the '
-        'receive loop starts; distinct = distinct applied op '
-        'list; non-trivial = a connection failure, a timeout, a concurrency rejection or a deliberate close happened')
+        'receive loop starts; and with 0-2 requests handed to the transport while the connect is in progress and 0-2 during the '
+        'handshake, for every way the open can end (refused connect; connection reset / ended / answered at once; write '
+        'fault, read fault in a header or a body, ping silence, with the Tping written or not; Close() while connecting or '
+        'during the handshake; the Rping with a read fault right behind it; a failing read / failing write / Close() at each '
+        'position inside the drain that reads the Rping; the successful open followed by the life of those requests); '
+        'distinct = distinct applied op list; non-trivial = a connection failure, a timeout, a concurrency rejection or a deliberate close happened')
 
 
 # ------------------------------------------------------------------ shared helpers
@@ -280,6 +297,7 @@ class MuxT(Base):
         self.subscribe()
         self.open_ar = None
         self.stack_ids = {}
+        self.parked = []           # callers issued while the open was pending, oldest first (see `park`)
 
     def conn(self):
         return self.sock.handle
@@ -303,7 +321,32 @@ class MuxT(Base):
         ores = 'none' if ar is None else 'pending' if not ar.ready() else 'ok' if ar.successful() else 'failed'
         tm = getattr(self.sink, '_tag_map', {})
         infl = [self.stack_ids.get(id(v[0]), 999999) for v in tm.values()]
-        return vfmt([STATE.get(self.sink.state, 'other'), ores, f, d, sent, infl, c])
+        blocked = [r['rid'] for r in self.parked if not r['done']]
+        return vfmt([STATE.get(self.sink.state, 'other'), ores, f, d, sent, infl, c, blocked])
+
+    def note_woken(self, kind):
+        """tags for the parked callers that went on during the operation that has just been applied"""
+        woke = [r for r in self.parked if r['done'] and not r['noted']]
+        if not woke:
+            return
+        for r in woke:
+            r['noted'] = True
+        how = 'accepted' if all(r['tag'] for r in woke) else 'rejected' if not any(r['tag'] for r in woke) else 'mixed'
+        self.tags.add('parked-woken-%s' % how)
+        self.tags.add('parked-%d-%s-by-%s' % (min(3, len(woke)), how, kind))
+
+    def park_texts(self):
+        """the tag a parked caller is handed by the pool is only known once it has gone on; one that never asked
+        for a tag gets a free one (the model does not use it then)"""
+        used = set(r['tag'] for r in self.parked if r['tag'])
+        nxt = 2
+        for r in self.parked:
+            if not r['tag']:
+                while nxt in used:
+                    nxt += 1
+                used.add(nxt)
+                r['tag'] = nxt
+            self.steps[r['step']][0] = 'park %d %d' % (r['rid'], r['tag'])
 
     def apply(self, op):
         import rt
@@ -311,6 +354,7 @@ class MuxT(Base):
         from scales.constants import ChannelState, TransportHeaders
         from scales.message import MethodCallMessage
         from scales.mux.sink import Tag
+        import gevent
         kind = op[0]
         s = self.sink
         if kind == 'open':
@@ -351,9 +395,80 @@ class MuxT(Base):
             self.open_ar = s.Open()
             rt.drain()
             return 'openburst %s' % vfmt([[o, tuple(f) if isinstance(f, list) else f] for o, f in applied])
+        if kind == 'openstart':
+            # Open(); `_OpenImpl` blocks in the connect until a `connected` operation lets it return
+            if s._open_result or s.state != ChannelState.Idle or self.sock.pend_connect is not None:
+                return None
+            self.sock.next_connect = 'block'
+            self.open_ar = s.Open()
+            rt.drain()
+            self.tags.add('connect-in-progress')
+            return 'openstart'
+        if kind == 'connected':
+            # ['connected', 'ok'|'refuse', [[outcome, frame], ...]]: the connect in progress concludes; if it is
+            # accepted the outcomes of the receive loop's first reads may already be there (as in `openburst`)
+            if self.sock.pend_connect is None:
+                return None
+            closed = s.state == ChannelState.Closed
+            if closed:
+                self.tags.add('connect-concludes-after-close')
+            reads, applied = [], []
+            if op[1] == 'ok':
+                at_hdr, nframes = True, 0
+                for o, f in op[2]:
+                    applied.append([o, f])
+                    if o != 'ok':
+                        reads.append((o, None))
+                        if not closed:
+                            self.tags.add('openburst-%s-at-%s-behind-%d-frames' % (o, 'hdr' if at_hdr else 'body',
+                                                                                   min(3, nframes)))
+                            self.tags.add('fault-during-open')
+                        break
+                    if at_hdr:
+                        reads.append(('ok', pack('!i', FRAME_LEN)))
+                    else:
+                        reads.append(('ok', _frame(f)))
+                        nframes += 1
+                    at_hdr = not at_hdr
+                if applied and not closed:
+                    self.tags.add('openburst')
+            elif not closed:
+                self.tags.add('connect-refused')
+                self.tags.add('connect-refused-after-blocking')
+            self.sock.next_connect = 'ok'
+            self.sock.release_connect(op[1], reads)
+            rt.drain()
+            return 'connected %s %s' % (op[1], vfmt([[o, tuple(f) if isinstance(f, list) else f] for o, f in applied]))
+        if kind == 'park':
+            # AsyncProcessRequest while the open is pending: the call blocks in `_open_result.wait()`, so it is
+            # issued from a greenlet of its own; the tag is filled in when the caller has gone on (`park_texts`)
+            if not (s.state == ChannelState.Idle and s._open_result):
+                return None
+            rid = self.next_id
+            self.next_id += 1
+            m = MethodCallMessage(None, 'hi', (), {})
+            b = BytesIO(b'req%d' % rid)
+            b.seek(0, 2)
+            st = self.LogStack(rid, self.dels)
+            self.stack_ids[id(st)] = rid
+            self._keep = getattr(self, '_keep', []) + [st]
+            rec = {'rid': rid, 'tag': 0, 'done': False, 'noted': False, 'step': len(self.steps)}
+
+            def call():
+                try:
+                    s.AsyncProcessRequest(st, m, b, {TransportHeaders.MessageType: 2})
+                    rec['tag'] = m.properties.get(Tag.KEY) or 0
+                finally:
+                    rec['done'] = True
+            self.parked.append(rec)
+            rec['g'] = gevent.spawn(call)
+            rt.drain()
+            self.tags.add('park-while-connecting' if self.sock.pend_connect is not None else 'park-during-handshake')
+            self.tags.add('parked-%d' % min(3, len([r for r in self.parked if not r['done']])))
+            return 'park %d 0' % rid
         if kind == 'req':
             if s.state == ChannelState.Idle and s._open_result:
-                return None                      # the caller would block on the open result
+                return None                      # the caller would block on the open result: that is `park`
             rid = self.next_id
             self.next_id += 1
             m = MethodCallMessage(None, 'hi', (), {})
@@ -553,6 +668,21 @@ def _mux_race(self, op):
 MuxT.race = _mux_race
 
 
+def _cause(text):
+    """what kind of operation let parked callers go on (for the coverage tags)"""
+    w = text.split()
+    k = w[0]
+    if k in ('wr', 'rd', 'connected'):
+        k += '-' + w[1]
+        if k == 'connected-ok' and ('eof' in text or 'raise' in text):
+            k = 'connected-then-reset'
+    elif k in ('burst', 'openburst'):
+        k += '-fault' if ('eof' in text or 'raise' in text) else '-ok'
+    elif k == 'race':
+        k += '-%s-%s' % (w[-2], w[-1])
+    return k
+
+
 def run_script(script):
     import rt  # noqa
     drv = Serial() if script['t'] == 'serial' else MuxT()
@@ -570,13 +700,20 @@ def run_script(script):
             continue
         drv.steps.append([text, drv.obs()])
         drv.hub_errors()
+        if script['t'] == 'muxt':
+            drv.note_woken(_cause(text))
     # leave no greenlet blocked behind
     try:
         drv.sink.Close()
         rt.drain()
+        if script['t'] == 'muxt' and drv.sock.pend_connect is not None:
+            drv.sock.release_connect('refuse')
+            rt.drain()
     except Exception:
         pass
     rt.take_errors()
+    if script['t'] == 'muxt':
+        drv.park_texts()
     drv.tags.add(script['t'])
     return {'comp': script['t'], 'cfg': '', 'steps': drv.steps, 'tags': sorted(drv.tags)}
 
@@ -654,11 +791,58 @@ def _gen_openburst(rng):
     return ['openburst', reads]
 
 
+def _gen_parked_open(rng, tags):
+    """Open() with requests handed to the transport while the open is pending: while the connect is in progress
+    and / or during the handshake; the open then succeeds or fails in one of the ways it can"""
+    ops = []
+    parks = lambda: [['park']] * rng.choice([0, 1, 1, 2, 3])
+    if rng.random() < 0.6:
+        ops.append(['openstart'])
+        ops += parks()
+        x = rng.random()
+        if x < 0.12:
+            ops += [['close']] + parks()
+        if x < 0.3 or 0.88 < x:
+            ops.append(['connected', 'refuse', []])
+            return ops + [['look'], ['req']]
+        if x < 0.5:
+            ops.append(['connected', 'ok', _gen_openburst(rng)[1]])
+        else:
+            ops.append(['connected', 'ok', []])
+    else:
+        ops.append(['open', 'ok'])
+    ops += parks()
+    if rng.random() < 0.7:
+        ops.append(['wr', 'ok'])
+        ops += parks() if rng.random() < 0.3 else []
+    if rng.random() < 0.4:
+        ops.append(['rd', 'ok', 'junk'])
+        ops += parks() if rng.random() < 0.3 else []
+    y = rng.random()
+    if y < 0.35:
+        ops += [['rd', 'ok', 'rping'], ['rd', 'ok', 'rping']]
+    elif y < 0.55:
+        ops.append(_gen_race(rng, tags, rping=0.8))
+    elif y < 0.7:
+        ops.append(_gen_burst(rng, tags + [1, 1, 1]))
+    elif y < 0.8:
+        ops.append(['burst', [['ok', 'junk'], ['ok', 'rping'], ['ok', 'junk'], ['ok', ['reply', rng.choice([2, 3])]]]])
+    else:
+        ops.append(rng.choice([['wr', 'raise'], ['rd', 'raise', 'junk'], ['rd', 'eof', 'junk'], ['pingsilence'],
+                               ['close']]))
+    return ops
+
+
 def _gen_mux(rng, n):
-    ops = [_gen_openburst(rng) if rng.random() < 0.08 else ['open', 'ok' if rng.random() < 0.93 else 'refuse']]
     p_fault = rng.choice([0.0, 0.03, 0.08, 0.2])
     tags = [2, 3, 4, 5, 6]
     y = rng.random()
+    if y < 0.25:
+        ops = _gen_parked_open(rng, tags)
+        y = 1.0
+    else:
+        y = rng.random()
+        ops = [_gen_openburst(rng) if rng.random() < 0.08 else ['open', 'ok' if rng.random() < 0.93 else 'refuse']]
     if y < 0.7:
         ops += [['wr', 'ok'], ['rd', 'ok', 'rping'], ['rd', 'ok', 'rping']]
     elif y < 0.85:
@@ -690,8 +874,10 @@ def _gen_mux(rng, n):
             ops.append(['pingsilence'])
         elif x < 0.97:
             ops.append(['close'])
-        else:
+        elif x < 0.985:
             ops.append(['look'])
+        else:
+            ops.append(['park'])               # applicable only while an open is pending
     return {'t': 'muxt', 'ops': ops}
 
 
@@ -837,6 +1023,68 @@ def _mux_cases():
                         yield pre + mid + f + tail
 
 
+def _mux_parked_cases():
+    """requests handed to the transport while its open is pending (0-2 while the connect is in progress, 0-2 during
+    the handshake, at least one), and every way the open can end: refused connect; connection reset / ended / answered
+    at once; write fault, read fault (error / EOF, header / body) and ping silence during the handshake with the Tping
+    written or not; Close() while connecting or during the handshake; the Rping with a read fault right behind it in one
+    burst; a failing read / failing write / Close() at each position inside the drain that reads the Rping; and the
+    successful open, after which the requests go through their lives (written, answered, failed by a later fault)."""
+    tail = [['look'], ['req'], ['wr', 'ok'], ['close'], ['look']]
+    life = [['look'], ['wr', 'ok'], ['wr', 'ok'], ['rd', 'ok', 'junk'], ['rd', 'ok', ['reply', 2]], ['req'], ['wr', 'ok']]
+    ends = [[['rd', 'eof', 'junk']], [['wr', 'raise']], [['pingdue'], ['pingsilence']], [['close']],
+            [['burst', [['ok', 'junk'], ['ok', ['reply', 3]], ['raise', 'junk']]]],
+            [['race', [['ok', 'junk'], ['ok', ['reply', 3]]], 'mid', 'wr']]]
+    for nc in range(3):
+        for nh in range(3):
+            if nc + nh == 0:
+                continue
+            pc, ph = [['park']] * nc, [['park']] * nh
+            starts = [[['open', 'ok']] + ph] if nc == 0 else []
+            starts += [[['openstart']] + pc + [['connected', 'ok', []]] + ph]
+            if nc:
+                # the open ends with the connect
+                yield [['openstart']] + pc + [['connected', 'refuse', []]] + tail
+                yield [['openstart']] + pc + [['close']] + [['park']] * nh + [['connected', 'ok', []]] + tail
+                yield [['openstart']] + pc + [['close']] + [['connected', 'refuse', []]] + tail
+                if nh == 0:
+                    for x in ('raise', 'eof'):
+                        yield [['openstart']] + pc + [['connected', 'ok', [[x, 'junk']]]] + tail
+                        yield [['openstart']] + pc + [['connected', 'ok', [['ok', 'junk'], [x, 'junk']]]] + tail
+                        yield [['openstart']] + pc + [['connected', 'ok', [['ok', 'junk'], ['ok', 'rping'], [x, 'junk']]]] + tail
+                    for e in ends:
+                        yield [['openstart']] + pc + [['connected', 'ok', [['ok', 'junk'], ['ok', 'rping']]]] + life + e + tail
+                        yield [['openstart']] + pc + [['connected', 'ok', [['ok', 'junk'], ['ok', 'rping'], ['ok', 'junk'],
+                                                                    ['ok', ['reply', 2]]]]] + life + e + tail
+            for st in starts:
+                for written in (False, True):
+                    pre = st + ([['wr', 'ok']] if written else [])
+                    # faults of the handshake
+                    for k in ([] if written else [['wr', 'raise']]) + [['rd', 'raise', 'junk'], ['rd', 'eof', 'junk'],
+                                                                      ['pingsilence'], ['close']]:
+                        yield pre + [k] + tail
+                        if k[0] == 'rd':
+                            yield pre + [['rd', 'ok', 'junk'], k] + tail
+                    for x in ('raise', 'eof'):
+                        yield pre + [['burst', [['ok', 'junk'], ['ok', 'rping'], [x, 'junk']]]] + tail
+                        yield pre + [['burst', [['ok', 'junk'], ['ok', 'rping'], ['ok', 'junk'], [x, 'junk']]]] + tail
+                        yield pre + [['burst', [['ok', 'junk'], ['ok', ['reply', 2]], [x, 'junk']]]] + tail
+                    for pos in ('first', 'pre', 'mid'):
+                        for hit in ('rdraise', 'rdeof', 'wr', 'close'):
+                            if (hit == 'wr' and written) or (pos == 'first' and hit.startswith('rd')):
+                                continue
+                            yield pre + [['race', [['ok', 'junk'], ['ok', 'rping']], pos, hit]] + tail
+                            yield pre + [['rd', 'ok', 'junk'], ['race', [['ok', 'rping']], pos, hit]] + tail
+                            yield pre + [['race', [['ok', 'junk'], ['ok', 'rping'], ['ok', 'junk'], ['ok', ['reply', 2]]],
+                                          pos, hit]] + tail
+                    # the open succeeds
+                    for e in ends:
+                        yield pre + [['rd', 'ok', 'junk'], ['rd', 'ok', 'rping']] + life + e + tail
+                    yield pre + [['burst', [['ok', 'junk'], ['ok', 'rping'], ['ok', 'junk'], ['ok', ['reply', 2]]]]] + life + tail
+                    yield pre + [['burst', [['ok', 'junk'], ['ok', 'rping']]], ['rd', 'eof', 'junk']] + tail
+                    yield pre + [['burst', [['ok', 'junk'], ['ok', 'rping']]], ['wr', 'raise']] + tail
+
+
 def exhaustive(tier, shard, shards):
     k = 0
     for ops in _serial_cases():
@@ -844,6 +1092,10 @@ def exhaustive(tier, shard, shards):
         if k % shards == shard:
             yield {'t': 'serial', 'ops': ops}
     for ops in _mux_cases():
+        k += 1
+        if k % shards == shard:
+            yield {'t': 'muxt', 'ops': ops}
+    for ops in _mux_parked_cases():
         k += 1
         if k % shards == shard:
             yield {'t': 'muxt', 'ops': ops}
@@ -859,11 +1111,15 @@ def shrink(script):
             for j in range(len(reads) - 1, -1, -1):
                 yield {'t': script['t'],
                        'ops': ops[:i] + [[ops[i][0], reads[:j] + reads[j + 1:]] + ops[i][2:]] + ops[i + 1:]}
+        if ops[i][0] == 'connected' and len(ops[i][2]) > 0:
+            reads = ops[i][2]
+            for j in range(len(reads) - 1, -1, -1):
+                yield {'t': script['t'], 'ops': ops[:i] + [['connected', ops[i][1], reads[:j] + reads[j + 1:]]] + ops[i + 1:]}
 
 
 def nontrivial(case):
     t = set(case.get('tags', []))
     return any(x.startswith(('io-', 'timeout-', 'connect-', 'deadline-past', 'concurrent', 'close', 'write-raise',
                              'read-', 'burst-', 'race', 'openburst', 'ping-silence', 'fault-during-open',
-                             'request-while-not-open'))
+                             'request-while-not-open', 'park'))
                for x in t)
